@@ -10,5 +10,5 @@ META = {
 
 def run(ctx):
     durcommon.exhaustive(ctx, "C19")
-    durcommon.run_file(ctx, "asof", 10 if ctx.thorough() else 4, 0, "C19")
+    durcommon.run_file(ctx, "asof", 50 if ctx.thorough() else 4, 0, "C19")
     ctx.assumptions += durcommon.ASSUME
